@@ -605,9 +605,21 @@ class Resolver:
         defs = self.local_defs(fi)[name]
         targets = []
         ok = False
+        defs = list(defs)
+        for v in list(defs):
+            if isinstance(v, ast.IfExp):
+                defs += [v.body, v.orelse]
         for v in defs:
             if isinstance(v, ast.Lambda):
                 ok = True
+                continue
+            # handler = self.process_x  (one of several branches of a dispatch chain)
+            if isinstance(v, ast.Attribute) and isinstance(v.value, ast.Name) and v.value.id == fi.self_name and fi.cls is not None:
+                mm = fi.cls.lookup(v.attr)
+                if mm is not None:
+                    if mm not in targets:
+                        targets.append(mm)
+                    ok = True
                 continue
             if isinstance(v, ast.Call) and isinstance(v.func, ast.Attribute) and v.func.attr == 'get' and v.args:
                 v = ast.Subscript(value=v.func.value, slice=v.args[0], ctx=ast.Load())      # d.get(k[, default]) looks d[k] up
